@@ -40,6 +40,9 @@ DIGESTS = [hashlib.md5(b"c15-seen-%d" % i).digest() for i in range(16)]
 UNSEEN = hashlib.md5(b"c15-unseen").digest()
 
 
+from vf.engine import unmodelled  # noqa: E402
+
+@unmodelled
 class _Mac:
     def __init__(self, owner, key, msg):
         self.owner, self.key, self.msg = owner, key, msg
@@ -57,6 +60,7 @@ class _Mac:
         return _Mac(self.owner, self.key, self.msg)
 
 
+@unmodelled
 class OracleHmac:
     def __init__(self):
         self.table = []          # (key, msg, digest) handed out during the signing phase
@@ -91,6 +95,7 @@ class OracleHmac:
         return d
 
 
+@unmodelled
 class TagPickle:
     UnpicklingError = real_pickle.UnpicklingError
 
